@@ -39,3 +39,18 @@ char *vs_strerror(int e) { static char b[256]; char tmp[256]; tmp[0] = 0;
     const char *m = strerror_r(e, tmp, sizeof tmp) ? "Unknown error" : tmp;
 #endif
     snprintf(b, sizeof b, "%s", m); vs_point_user(31); return b; }
+
+/* tzset(): glibc runs it under its internal time-zone lock and, when TZ is unset, stats and re-reads /etc/localtime and calls the allocator
+ * while holding that lock; fork() does not reset the lock in the child.  A thread inside tzset() therefore holds a libc lock across system
+ * calls exactly like a thread inside the library's own lock window - but no atfork handler of the library covers it.  In the scheduler
+ * builds the lock is modelled by a mutex of this file with a scheduling point inside the window (localtime_r takes the same lock in libc,
+ * but without system calls inside: no scheduling point, no explorable window). */
+#include <pthread.h>
+__attribute__((weak)) int vs_mutex_lock(pthread_mutex_t *m);
+__attribute__((weak)) int vs_mutex_unlock(pthread_mutex_t *m);
+static pthread_mutex_t model_of_libc_tz_lock = PTHREAD_MUTEX_INITIALIZER;
+void vs_tzset(void) {
+    if (vs_mutex_lock && vs_mutex_unlock) { vs_mutex_lock(&model_of_libc_tz_lock); tzset(); nr_point(40); vs_mutex_unlock(&model_of_libc_tz_lock); }
+    else tzset();
+}
+
